@@ -173,6 +173,8 @@ MODELS = {
             M("TempStackList", "MCTemp_4x2.cfg", tier="thorough", workers=8), M("TempStackList", "MCTemp_4x3.cfg", tier="thorough", workers=16),
             M("TempStackList", "MCTemp_regress_push.cfg", "witness"), M("TempStackList", "MCTemp_wit_pushretry.cfg", "witness"),
             M("TempStackList", "MCTemp_regress_release.cfg", "witness"),
+            M("TempMode1", "MCTempMode1_ok.cfg"), M("TempMode1", "MCTempMode1_regress.cfg", "witness"),
+            M("TempMode1", "MCTempMode1_wit.cfg", "witness"),
             M("TempStackList", "MCTemp_regress_uninit.cfg", "witness"), M("TempStackList", "MCTemp_regress_detector.cfg", "witness"),
             M("TempStackList", "MCTemp_regress_nifty.cfg", "witness"), M("TempStackList", "MCTemp_regress_cas.cfg", "witness"),
             M("TempStackList", "MCTemp_wit_adopt.cfg", "witness"), M("TempStackList", "MCTemp_wit_race.cfg", "witness"),
